@@ -307,10 +307,22 @@ func (r *Reliable) send() {
 						"unacked":  r.sender.unacked,
 					}).Trace("Window sending")
 
+					// This goroutine is the only reader of sendQueue. Behind a slow
+					// or dead transport acknowledgements and retransmissions pile up
+					// in it; a blocking send on the full queue would block this
+					// goroutine for ever, holding the lifecycle lock that the muxer's
+					// receiver needs for every incoming frame. A frame that does not
+					// fit stays unqueued: the next window-open signal or the
+					// retransmission timer sends it.
+					select {
+					case r.sender.sendQueue <- windowFrame.frame:
+					default:
+						numQueued = numFrames // stop queueing
+						continue
+					}
+
 					windowFrame.Time = time.Now()
 					windowFrame.queued = true
-
-					r.sender.sendQueue <- windowFrame.frame
 
 					r.sender.unacked++
 
